@@ -27,6 +27,7 @@ type Ctx struct {
 	Fset    *token.FileSet
 	Pkgs    []*packages.Package // packages of the main module (non-test)
 	byPath  map[string]*packages.Package
+	allPkgs map[string]*packages.Package // every loaded package incl. dependencies
 	Prog    *ssa.Program
 	SSAPkgs map[string]*ssa.Package
 	// every source function of the main module, including function literals
@@ -56,7 +57,9 @@ func load(repo string, overlay map[string][]byte) (*Ctx, error) {
 	c := &Ctx{RepoDir: repo, byPath: map[string]*packages.Package{}, SSAPkgs: map[string]*ssa.Package{},
 		fnByKey: map[string]*ssa.Function{}, parentOf: map[*ssa.Function]*ssa.Function{}}
 	var terrs []string
+	c.allPkgs = map[string]*packages.Package{}
 	packages.Visit(pkgs, nil, func(p *packages.Package) {
+		c.allPkgs[p.PkgPath] = p
 		for _, e := range p.Errors {
 			terrs = append(terrs, fmt.Sprintf("%s: %s", p.PkgPath, e.Msg))
 		}
@@ -210,6 +213,9 @@ func (c *Ctx) Field(pkg, typ, field string) *types.Var {
 
 func (c *Ctx) Obj(pkg, name string) types.Object {
 	p := c.Pkg(pkg)
+	if p == nil {
+		p = c.allPkgs[pkg]
+	}
 	if p == nil {
 		return nil
 	}
